@@ -130,6 +130,12 @@ def project_list(tier):
         for nesting in (1, 2):
             out.append((f"holddied:n{nesting}j{nj}", ("f_hold", {"nesting": nesting, "fail": 0, "v": 2}),
                         {"njob": nj, "resources": None}, ("f_hold", {"nesting": nesting, "fail": 1, "v": 1})))
+    # a running step blocked in amend() on a file under a static tree (the director hashes it
+    # first) while another step is ready and the build is at capacity
+    for nj in (1, 2):
+        out.append((f"treeamend:j{nj}", ("f_treeamend", {}), {"njob": nj, "resources": None}, None))
+        out.append((f"pctree:j{nj}", ("f_prodcons", {"consumer": "read_first", "tree": 1}),
+                    {"njob": nj, "resources": None}, None))
     # a held step with a stored hash: first build v=1 without hold semantics mattering,
     # then the plan changes (v=2) and reruns with the same step definitions under hold
     for nj in (2, 3):
